@@ -39,21 +39,21 @@ POOL = ['planet_radius', 'T', 'mol0', 'mol1', 'fill', 'clouds_pressure']
 def _case(draw):
     sampler = draw(st.sampled_from(['nestle', 'multinest', 'polychord', 'nestle']))
     family = draw(st.sampled_from(['transmission', 'emission', 'transmission']))
-    k = draw(st.integers(1, 5))
-    fitted = draw(st.permutations(POOL))[:k]
+    k = draw(S.ints(1, 5))
+    fitted = draw(S.perm(POOL))[:k]
     if 'mol0' not in fitted and draw(st.booleans()):
         fitted = ['mol0'] + list(fitted)[:4]
     pri = {}
     for p in fitted:
         pri[p] = {'kind': draw(st.sampled_from(['Uniform', 'LogUniform', 'Gaussian', 'LogGaussian'])),
                   'a': draw(st.floats(0.2, 0.9)), 'b': draw(st.floats(1.1, 3.0)), 'std': draw(st.floats(0.01, 0.05))}
-    nb = draw(st.integers(3, 6))
-    obs = {'nb': nb, 'cols': draw(st.sampled_from([4, 3])), 'perm': draw(st.permutations(list(range(nb)))),
+    nb = draw(S.ints(3, 6))
+    obs = {'nb': nb, 'cols': draw(st.sampled_from([4, 3])), 'perm': draw(S.perm(list(range(nb)))),
            'noise': draw(st.lists(st.floats(-1, 1), min_size=nb, max_size=nb)),
            'err': draw(st.lists(st.floats(0.2, 3.0), min_size=nb, max_size=nb)),
            'pos': draw(st.floats(0.05, 0.95)), 'wfac': draw(st.lists(st.floats(0.3, 0.9), min_size=nb, max_size=nb)),
            'obs_param': draw(st.sampled_from([True, False, False]))}
-    npts = draw(st.integers(4, 14))
+    npts = draw(S.ints(4, 14))
     pts = [{'u': draw(st.lists(st.floats(0.02, 0.98), min_size=5, max_size=5)),
             'invalid': draw(st.sampled_from([True, False, False]))} for _ in range(npts)]
     w = draw(S.world(layers=(3, 10), nwn=(24, 40), max_active=2, extras=('SimpleClouds',), temps=('iso',),
@@ -61,7 +61,7 @@ def _case(draw):
     w['extras'] = ['SimpleClouds'] if family == 'transmission' else []      # a cloud deck blanks the emission spectrum
     w['fill'] = ['H2', 'He']
     return {'world': w, 'sampler': sampler, 'family': family, 'fitted': list(fitted), 'priors': pri, 'obs': obs,
-            'points': pts, 'ngauss': draw(st.integers(1, 3)), 'retarget': draw(st.sampled_from(['after-use', 'before-use', False, 'after-use', 'before-use', False]))}
+            'points': pts, 'ngauss': draw(S.ints(1, 3)), 'retarget': draw(st.sampled_from(['after-use', 'before-use', False, 'after-use', 'before-use', False]))}
 
 
 def strategy(tier):
@@ -166,8 +166,8 @@ def scaled_observation_class():
 
 @st.composite
 def observation_spec(draw):
-    nb = draw(st.integers(3, 6))
-    return {'nb': nb, 'cols': draw(st.sampled_from([4, 3])), 'perm': draw(st.permutations(list(range(nb)))),
+    nb = draw(S.ints(3, 6))
+    return {'nb': nb, 'cols': draw(st.sampled_from([4, 3])), 'perm': draw(S.perm(list(range(nb)))),
             'noise': draw(st.lists(st.floats(-1, 1), min_size=nb, max_size=nb)),
             'err': draw(st.lists(st.floats(0.2, 3.0), min_size=nb, max_size=nb)),
             'pos': draw(st.floats(0.05, 0.95)), 'wfac': draw(st.lists(st.floats(0.3, 0.9), min_size=nb, max_size=nb)),
